@@ -325,6 +325,84 @@ RegistryContract(ev, M) ==
   LET f == RegistryRun(ev.a.hist, 1, {}, <<>>)
   IN IF f = <<>> THEN <<>> ELSE << <<f[1][1], f>> >>
 
+(* -- contraction schemes (C16) ---------------------------------------------------- *)
+(* ev.a.steps: the returned list of contractions.  step =                  *)
+(*   [ops : Seq(operand), contracted, target : Seq(idx id), comp, mem :    *)
+(*    [total, o, v, g] reported scaling]                                   *)
+(* operand = [t |-> "obj", o |-> tensor/delta object of the term (e = 1)]   *)
+(*         | [t |-> "ctr", ref |-> position of an earlier step, ix |-> ids] *)
+(* ev.pre is the term without numeric / symbolic prefactors, ev.a.target   *)
+(* the requested target indices in order.                                  *)
+RECURSIVE StepVal(_, _, _, _, _)
+StepVal(steps, k, sig, ev, M) ==
+  LET st == steps[k]
+      opval(op, sg) == IF op.t = "obj" THEN ObjVal(op.o, sg, M)
+                       ELSE StepVal(steps, op.ref, sg, ev, M)
+      prod(sg) == FoldSet(LAMBDA j, a : IF a = 0 THEN 0 ELSE FMul(a, opval(st.ops[j], sg)),
+                          1, 1..Len(st.ops))
+      RECURSIVE Sum(_, _)
+      Sum(j, sg) == IF j > Len(st.contracted) THEN prod(sg)
+                    ELSE FoldSet(LAMBDA v, a : FAdd(a, Sum(j + 1, [sg EXCEPT ![st.contracted[j]] = v])),
+                                 0, IdxRange(ev.idx[st.contracted[j]], M))
+  IN Sum(1, sig)
+
+OperandIdx(op) == IF op.t = "obj" THEN ObjIdx(op.o) ELSE SeqRange(op.ix)
+StepIdx(st) == UNION {OperandIdx(st.ops[j]) : j \in 1..Len(st.ops)}
+SpaceCount(ev, ids, sp) == Cardinality({i \in ids : ev.idx[i].s = sp})
+
+SchemeContract(ev, M) ==
+  LET steps == ev.a.steps
+      n == Len(steps)
+      t == ev.pre[1]
+      tg == SeqRange(ev.a.target)
+      \* objects of the term with exponent multiplicity
+      expanded == [j \in 1..Len(t.objs) |-> [t.objs[j] EXCEPT !.e = 1]]
+      termBag == [x \in SeqRange(expanded) |->
+                    FoldSet(LAMBDA j, a : IF expanded[j] = x THEN a + t.objs[j].e ELSE a, 0, 1..Len(t.objs))]
+      usedObjs == UNION {{<<k, j>> : j \in {jj \in 1..Len(steps[k].ops) : steps[k].ops[jj].t = "obj"}} : k \in 1..n}
+      usedBag == [x \in {steps[kj[1]].ops[kj[2]].o : kj \in usedObjs} |->
+                    Cardinality({kj \in usedObjs : steps[kj[1]].ops[kj[2]].o = x})]
+      refs == UNION {{<<k, j>> : j \in {jj \in 1..Len(steps[k].ops) : steps[k].ops[jj].t = "ctr"}} : k \in 1..n}
+      refCount(r) == Cardinality({kj \in refs : steps[kj[1]].ops[kj[2]].ref = r})
+      laterIdx(k) == UNION {StepIdx(steps[kk]) : kk \in (k + 1)..n}
+      bad == {sig \in Assignments(ev.a.target, ev.idx, M) :
+                Val(ev.pre, ev.idx, tg, sig, M) # StepVal(steps, n, sig, ev, M)}
+      hyper == Cardinality(TermIdx(t))
+  IN Clause("objects-once", termBag = usedBag, <<termBag, usedBag>>)
+     \o Clause("intermediate-once",
+               /\ \A r \in 1..(n - 1) : refCount(r) = 1
+               /\ refCount(n) = 0
+               /\ \A kj \in refs : steps[kj[1]].ops[kj[2]].ref < kj[1]
+                                    /\ steps[kj[1]].ops[kj[2]].ix = steps[steps[kj[1]].ops[kj[2]].ref].target,
+               "an intermediate result is not used exactly once / out of order")
+     \o Clause("summed-too-early",
+               \A k \in 1..n : \A c \in SeqRange(steps[k].contracted) :
+                  c \notin tg /\ c \notin laterIdx(k),
+               {<<k, c>> \in (1..n) \X (1..Len(ev.idx)) :
+                  c \in SeqRange(steps[k].contracted) /\ (c \in tg \/ c \in laterIdx(k))})
+     \o Clause("step-indices",
+               \A k \in 1..n : SeqRange(steps[k].contracted) \cup SeqRange(steps[k].target) = StepIdx(steps[k])
+                                /\ SeqRange(steps[k].contracted) \cap SeqRange(steps[k].target) = {},
+               "contracted + target indices of a step are not its operand indices")
+     \o Clause("final-target", steps[n].target = ev.a.target, <<steps[n].target, ev.a.target>>)
+     \o Clause("val", bad = {}, [n |-> Cardinality(bad)])
+     \o Clause("max_itmd_dim",
+               ev.a.max_itmd_dim = 0 \/ \A k \in 1..(n - 1) : Len(steps[k].target) <= ev.a.max_itmd_dim,
+               {<<k, Len(steps[k].target)>> : k \in 1..(n - 1)})
+     \o Clause("max_n_simultaneous",
+               ev.a.max_n = 0 \/ \A k \in 1..n : Len(steps[k].ops) <= ev.a.max_n,
+               {<<k, Len(steps[k].ops)>> : k \in 1..n})
+     \o Clause("scaling",
+               \A k \in 1..n :
+                 LET c == SeqRange(steps[k].contracted)  tt == SeqRange(steps[k].target) IN
+                 /\ steps[k].comp.total = Cardinality(c) + Cardinality(tt)
+                 /\ \A sp \in {"o", "v", "g"} : steps[k].comp[sp] = SpaceCount(ev, c, sp) + SpaceCount(ev, tt, sp)
+                 /\ steps[k].mem.total = Cardinality(tt)
+                 /\ \A sp \in {"o", "v", "g"} : steps[k].mem[sp] = SpaceCount(ev, tt, sp),
+               "reported scaling differs from the index counts")
+     \o Clause("worse-than-hyper",
+               \A k \in 1..n : steps[k].comp.total <= hyper, hyper)
+
 (* -- the contract per operation ------------------------------------------ *)
 Contract(ev, M) ==
   CASE ev.op = "valpres" -> ValEq(ev, M, ev.pre, ev.post)
@@ -333,6 +411,7 @@ Contract(ev, M) ==
     [] ev.op = "simplify_unitary" -> UnitaryContract(ev, M)
     [] ev.op = "wicks" -> WicksContract(ev, M)
     [] ev.op = "tensor" -> TensorContract(ev, M)
+    [] ev.op = "scheme" -> SchemeContract(ev, M)
     [] ev.op = "order_substitutions" -> OrderSubsContract(ev, M)
     [] ev.op = "permute" -> PermuteContract(ev, M)
     [] ev.op = "rename" -> RenameContract(ev, M)
